@@ -237,7 +237,7 @@ func (c *Config) YAML(port int) string {
 		w("Client:\n%s", cl)
 	}
 	sb.WriteString(c.ExtraYAML)
-	return sb.String()
+	return strings.ReplaceAll(sb.String(), "%PORT%", fmt.Sprint(port))
 }
 
 // Proc is a running gateway.
